@@ -403,6 +403,20 @@ def judge(m, impl, mod):
     if m["kind"] == "roundtrip" and m["supported"] and not m["nullprec"] and not m["negprec"] and iref and mref \
             and mref[0] != "ref ?" and iref[0] != mref[0]:
         specdiff = (iref[0][:200], mref[0][:200])
+    # the theorem's own hypothesis (extracted wf_go / ser_data): covered format, record fits, text fits => text equal
+    wf = [l for l in mod[0] if l.startswith("wf ")]
+    des = [l for l in lines if l.startswith("des ")]
+    if not msg and m["kind"] == "roundtrip" and wf and iref and des and not m["negprec"] and not m["nullprec"] \
+            and "\a" not in m["fmt"]:
+        covered, need = int(wf[0].split()[1]), int(wf[0].split()[2])
+        rl, rt = int(iref[0].split(" ")[1]), L.unhx(iref[0].split(" ")[2])
+        ret, out = int(des[0].split(" ")[1]), L.unhx(des[0].split(" ")[2])
+        if covered and need <= m["max_len"] and 0 <= rl < m["n"] and (ret - 1 != rl or out[:ret - 1] != rt):
+            msg = "format %r is covered by wf_go, record %d <= %d and text %d < %d fit, but decoded %r != vsnprintf %r" % (
+                m["fmt"], need, m["max_len"], rl, m["n"], out[:ret - 1][:60], rt[:60])
+        if covered and m["supported"] and m["need"] not in (0, 10 ** 6) and need != m["need"]:
+            return ("correspondence", "record size by ser_data (%d) differs from the generator's (%d) for %r" % (
+                need, m["need"], m["fmt"]), {}, None)
     if msg:
         return ("impl-monitor", msg, {"first_model_difference": d}, finding)
     if mod[1]:
